@@ -134,6 +134,21 @@ Proof.
   split; [exact qgauss2_shapes_unchanged_iff | exact qgauss2_shapes_unchanged_refuted].
 Qed.
 
+(* QGauss.integrate's dispatch.  Repaired (callable()): every function integrand — plain function,
+   lambda, method, numpy ufunc, functools.partial, builtin, numpy.vectorize, object with __call__ —
+   reaches the function integrator and every table (array, list, tuple) the data integrator.
+   Unchanged (isinstance FunctionType/MethodType): refuted by a ufunc; agrees outside that class. *)
+Theorem C17_dispatch_repaired : forall k,
+  (is_callable k = true -> dispatch false k = RFunc) /\ (is_callable k = false -> dispatch false k = RData).
+Proof. exact dispatch_repaired. Qed.
+
+Theorem C17_dispatch_unchanged_refuted : exists k, is_callable k = true /\ dispatch true k = RData.
+Proof. exact dispatch_unchanged_refuted. Qed.
+
+Theorem C17_dispatch_unchanged_outside_known : forall k,
+  kf_callable_not_function k = false -> dispatch true k = dispatch false k.
+Proof. exact dispatch_unchanged_outside_known. Qed.
+
 (* Cache: for every history of calls whose explicit point counts gauleg accepts, the object
    (with its cache) returns exactly what the cache-less specification returns: every result is
    that of a fresh object with the call's effective point count. *)
